@@ -186,6 +186,10 @@ def one_history(chk, rng, s, tmp):
         return
     if final == "plain":
         chk.mirror.save(s, data, s.doc.container.default_manifest_rdf.encode("utf8"))
+    elif final == "pretty":
+        # the model's pretty save (Package.savePretty): same names, parsed and standard parts pretty, the rest as they are
+        chk.mirror.sync_xml(s)
+        chk.mirror.save_pretty(s, data, s.doc.container.default_manifest_rdf.encode("utf8"))
     check_saved(chk, s, data, case)
 
 
